@@ -445,7 +445,10 @@ static void sec_cassini(Ctx& c, uint64_t idx) {
       bool inside = !reverse_only && (double)ref::fabs(R.P.lon12) < 90 - 1e-6 && (double)ref::fabs(R.P.a12) < 90 - 1e-6;
       if (inside) {     // Forward o Reverse = identity inside the region
         double x2, y2, a2, k2; cs.Forward(lat, lon, x2, y2, a2, k2);
-        double ex = std::fabs(x2 - x), ey = std::fabs(y2 - y) * std::fabs((double)R.P.M12);
+        // y is a distance along the closed central meridian: it is defined modulo the meridian circumference 4 Q, and a foot of the
+        // perpendicular at the antipode of the centre (y = +-2Q) is legitimately reported on either branch.  (The first version compared
+        // y2 - y directly: a false alarm on the unchanged tree in the thorough tier, sphere, x 1.4 m from its limit, y = 2Q - 1 mm.)
+        double ex = std::fabs(x2 - x), ey = std::fabs(std::remainder(y2 - y, 4 * e.qm)) * std::fabs((double)R.P.M12);
         const std::string rg = (std::fabs(lat) < 1e-6 && 2 * std::fabs((double)(R.P.m12 * R.P.M12)) < 1e-3 * e.a) ? "/equatorial-near-conjugate" : "";
         c.obs("cassini Forward o Reverse: max(|dx|, |dy|*M12) / tolerance [" + e.name + "]" + (rg.empty() ? "" : " {regime equatorial-near-conjugate}"), std::max(ex, ey) / (3 * T), wr);
         if (!(ex <= 3 * T && ey <= 3 * T)) viol_rg(c, rg, "law:C17/cassini/Forward-o-Reverse", cls, J(wr).f("x2", x2).f("y2", y2).f("ex_m", ex).f("ey_m", ey).f("tol_m", 3 * T));
